@@ -362,8 +362,10 @@ def run(ctx):
             base = got[configs[0]] if configs[0] in got else next(iter(got.values()))
             for cfg, sk in got.items():
                 if sk != base:
-                    viol("shape.cross", f"config {cfg} returns {sk} but {configs[0]} returns {base} for the same request", {**info, "config": list(map(str, cfg))},
-                         f"cross:{cfg[0]}:{cfg[1]}:{cfg[2]}")
+                    mech = f"cross:{cfg[0]}:{cfg[1]}:{cfg[2]}"
+                    if req["B"] == 1 and req["shots"] is not None and strip_dtype(want) in (sk, base):
+                        mech = "broadcast1-finite-shots-squeezed"  # one side follows the specification, the other dropped the size-1 batch axis
+                    viol("shape.cross", f"config {cfg} returns {sk} but {configs[0]} returns {base} for the same request", {**info, "config": list(map(str, cfg))}, mech)
 
     def spec_squeezed(req):
         """What the request would look like if scalar/probs measurements lost a size-1 broadcast axis while samples kept it (classifier only)."""
